@@ -315,15 +315,14 @@ class Position(object):
         dt : `pd.Timestamp`, optional
             The optional timestamp of the current market price.
         """
-        self._check_set_dt(dt)
-
         if market_price <= 0.0:
             raise ValueError(
                 'Market price "%s" of asset "%s" must be positive to '
                 'update the position.' % (market_price, self.asset)
             )
-        else:
-            self.current_price = market_price
+
+        self._check_set_dt(dt)
+        self.current_price = market_price
 
     def _transact_buy(self, quantity, price, commission):
         """
@@ -383,6 +382,12 @@ class Position(object):
         if int(floor(transaction.quantity)) == 0:
             return
 
+        # Update the current trade information. This validates the
+        # price and the timestamp, so it comes before the quantities
+        # are touched: a refused transaction must not change the position
+        self.update_current_price(transaction.price, transaction.dt)
+        self.current_dt = transaction.dt
+
         # Depending upon the direction of the transaction
         # ensure the correct calculation is called
         if transaction.quantity > 0:
@@ -397,7 +402,3 @@ class Position(object):
                 transaction.price,
                 transaction.commission
             )
-
-        # Update the current trade information
-        self.update_current_price(transaction.price, transaction.dt)
-        self.current_dt = transaction.dt
